@@ -151,6 +151,12 @@ impl<'i> RecipeCollector<'i, '_> {
                     let new_content = match current_block {
                         Some(BlockBuffer::Step(items)) => {
                             assert_eq!(kind, BlockKind::Step);
+                            // a block can be only a trailing escape character
+                            // and produce no items, that is not a step
+                            if items.is_empty() {
+                                current_block = None;
+                                continue;
+                            }
                             Content::Step(Step {
                                 items,
                                 number: self.step_counter,
